@@ -14,6 +14,7 @@ from dalimc.aio.engine import execute, Caller
 
 ID = "C17"
 OPTIMISED_STRIDE = {"quick": 12, "thorough": 24}      # every k-th shard once more in an interpreter started with -O
+TRACE_STRIDE = {"quick": 8, "thorough": 16}      # every k-th shard once more with logging enabled down to TRACE
 LEVEL = "fault_enumeration"
 ENGINE = "E3"
 TECHNIQUE = "exhaustive fault placement: device loss / caller cancellation / gateway silence injected at every scheduler boundary of every schedule within the deviation bound, on the real asyncio drivers over a virtual loop"
